@@ -1,6 +1,7 @@
 import ModbusModel.Lemmas.Rtu
 import ModbusModel.Lemmas.Encode
 import ModbusModel.Lemmas.Crc
+import ModbusModel.Lemmas.CrcSpec
 /-
   C04 – RTU delivers only CRC-valid frames and emits only CRC-correct frames.
 -/
@@ -143,6 +144,27 @@ example : within16 0x01 0x01 = false := by decide   -- 17 bits apart: not a burs
 /-- the catalogue check value of CRC-16/MODBUS: crc("123456789") = 0x4B37, transmitted low byte first -/
 theorem crc_check_value :
     crcBytes [0x31, 0x32, 0x33, 0x34, 0x35, 0x36, 0x37, 0x38, 0x39] = [0x37, 0x4B] := by decide +kernel
+
+/-- **`calc_crc` is CRC-16/MODBUS** – against a specification that shares nothing with the code:
+    read as bits in the order they go over the line, the two CRC bytes are the remainder of the
+    polynomial division (schoolbook long division on coefficient lists, `CrcSpec.pmod`) of the
+    message – sixteen zeros appended, first sixteen bits complemented – by x^16 + x^15 + x^2 + 1.
+    For messages of every length. -/
+theorem crc_is_polynomial_remainder (data : Bytes) :
+    CrcSpec.bitsOf (crcBytes data) = CrcSpec.pmod (8 * data.length) (CrcSpec.dividend data) :=
+  CrcSpec.crcBytes_is_remainder data
+
+/-- every frame the library emits or delivers is, as a polynomial, divisible by the generator:
+    the division of address, PDU and CRC leaves the remainder zero -/
+theorem valid_frame_remainder_zero (body : Bytes) :
+    CrcSpec.crcSpec (body ++ crcBytes body) = CrcSpec.zeros 16 := by
+  rw [← CrcSpec.reg_is_remainder, reg_valid]
+  rfl
+
+-- the specification itself on the catalogue check value and on the empty message
+example : CrcSpec.crcSpec [0x31, 0x32, 0x33, 0x34, 0x35, 0x36, 0x37, 0x38, 0x39]
+    = CrcSpec.bitsOf [0x37, 0x4B] := by decide +kernel
+example : CrcSpec.crcSpec [] = CrcSpec.ones 16 := by decide
 
 -- non-vacuity: a real frame (the library's own test vector) is delivered, a damaged one is not
 example : (rtuDecode responsePduLen {} [0x01, 0x03, 0x04, 0x89, 0x02, 0x42, 0xC7, 0x00, 0x9D]).1
